@@ -77,6 +77,10 @@ func (s *DiskKeyIndex) IteratorBetween(keyLower []byte, keyHigher []byte) (skipl
 
 	// due to the inclusivity of keyHigher, we want to exclude the next item if it's not an exact match
 	if !found {
+		// keyHigher is smaller than every key in the index: nothing is in range (and offset zero must not wrap around)
+		if endOffset == 0 {
+			return s.newIterator(1, 0), nil
+		}
 		endOffset = endOffset - 1
 	}
 
